@@ -14,7 +14,7 @@ IR (JSON lists); every form is an expression with a value:
   ["fn", [params], [e...]]         ["call", f, [e...]]
   ["op", name, [e...]]             + - *  and two-operand comparisons = != < <= > >=
   ["list", [e...]]  ["tuple", [e...]]  ["dict", [[k, v]...]]
-  ["get", e, i]     ["cut", e, a, b]
+  ["get", e, i]     ["cut", e, a, b]     ["pop", name]  (.pop name): removes and returns the last element of the list in name
   ["while", c, [e...], else|None]  ["for", var, it, [e...], else|None]
   ["break"] ["continue"] ["return", e]
   ["raise", exc, id]               (raise (XA id))
@@ -105,6 +105,8 @@ def render(e, ind=0, multiline=False):
         return "#(" + " ".join(r(x) for x in e[1]) + ")"
     if k == "dict":
         return "{" + "  ".join(r(a) + " " + r(b) for a, b in e[1]) + "}"
+    if k == "pop":
+        return "(.pop " + e[1] + ")"
     if k == "get":
         return "(get" + sp + r(e[1]) + sp + r(e[2]) + ")"
     if k == "cut":
@@ -433,6 +435,8 @@ class Interp:
                     kk = self.ev(a, sc)
                     d[kk] = self.ev(b, sc)
                 return d
+        if k == "pop":
+            return self.lookup(e[1], sc).pop()
         if k == "get":
             with self.par():
                 c = self.ev(e[1], sc)
@@ -866,6 +870,9 @@ def _info(node):
         k = n[0]
         if k == "var" and len(n) == 2 and isinstance(n[1], str):
             reads.add(n[1])
+        elif k == "pop" and len(n) == 2 and isinstance(n[1], str):
+            reads.add(n[1])
+            writes.add(n[1])  # mutation of the object the variable holds
         elif k == "eff" or k == "with":
             eff = True
         elif k in _EXIT_FORMS:
